@@ -260,8 +260,9 @@ func c18KeySubstitution(c *Ctx) {
 	c.Floor(rule, 5, "five keys")
 }
 
-func c18CSPRNG(c *Ctx) {
-	rule := "C18/csprng"
+func c18CSPRNG(c *Ctx) { c18CSPRNGAs(c, "C18/csprng") }
+
+func c18CSPRNGAs(c *Ctx, rule string) {
 	for _, name := range []string{"GenerateRandomString", "GenerateRandomBytes"} {
 		fn := c.Fn("cmd/rdpgw/security", name)
 		nCrypto := 0
@@ -289,6 +290,22 @@ func c18CSPRNG(c *Ctx) {
 				c.Check(okLen, rule, name+" length", r.Pos(), "returns exactly n symbols", "the generator's result is not a buffer of the requested length n")
 			}
 		}
+	}
+	// every symbol is drawn separately: the draw sits inside the per-symbol loop (or the string is
+	// built from GenerateRandomBytes of the same length)
+	{
+		gs := c.Fn("cmd/rdpgw/security", "GenerateRandomString")
+		perSymbol := false
+		for _, ci := range callsIn(gs) {
+			n := calleeName(ci)
+			if (n == "crypto/rand.Int" || n == "crypto/rand.Read" || n == "io.ReadFull") && inCycle(ci.Block()) {
+				perSymbol = true
+			}
+			if n == secPkgPath+".GenerateRandomBytes" && ci.Common().Args[0] == ssa.Value(gs.Params[0]) {
+				perSymbol = true
+			}
+		}
+		c.Check(perSymbol, rule, "GenerateRandomString per-symbol", gs.Pos(), "one crypto/rand draw per symbol", "the random draw is not made once per symbol (hoisted out of the loop): a generated key is one symbol repeated, guessable in a few thousand tries")
 	}
 	// alphabet: constant with at least 32 distinct symbols, index bounded by its length
 	fn := c.Fn("cmd/rdpgw/security", "GenerateRandomString")
